@@ -302,7 +302,7 @@ impl Expr {
 
 	pub fn from_rule(pair: Pair<Rule>) -> Self {
 		// we do a little hacking
-		let inner = if matches!(pair.as_rule(), Rule::func_call | Rule::var_ident | Rule::range | Rule::range_inclusive | Rule::bin_expr | Rule::bool_expr_single | Rule::bool_expr | Rule::int | Rule::null) {
+		let inner = if matches!(pair.as_rule(), Rule::func_call | Rule::var_ident | Rule::array | Rule::range | Rule::range_inclusive | Rule::bin_expr | Rule::bool_expr_single | Rule::bool_expr | Rule::int | Rule::null) {
 			pair
 		} else {
 			let rule = format!("{:?}",pair.as_rule());
